@@ -215,7 +215,8 @@ class FJSPFileGenerator(Generator):
         self.start_idx = 0
 
     def _generate(self, batch_size: List[int]) -> TensorDict:
-        batch_size = np.prod(batch_size)
+        # no batch size given (the default of load_data): all instance files
+        batch_size = int(np.prod(batch_size)) if np.size(batch_size) > 0 else self.num_samples
         if batch_size > self.num_samples:
             log.warning(
                 f"Only found {self.num_samples} instance files, but specified dataset size is {batch_size}"
